@@ -138,6 +138,12 @@ class SamplerDriver:
         o.initialize()
         return o.get_state()["state"]
 
+    def stream_after_initialize(self, rng_before):
+        o = self.factory(callback=None)
+        np.random.set_state(rng_before)
+        o.initialize()
+        return np.random.get_state()
+
 
 class HybridGibbsDriver(SamplerDriver):
     has_ckpt = False
@@ -310,8 +316,18 @@ def run_behaviour(ctx, name, driver_cls, factory, case, seed, workdir, ref_cache
                 rng_before = np.random.get_state()
                 drv.reinit()
                 st = drv.state()
+                rng_after_reinit = np.random.get_state()
                 np.random.set_state(rng_before)
                 fr = drv.fresh_state()
+                # what initialize() of a freshly CONSTRUCTED sampler consumes from the same position (the constructor itself may
+                # draw, e.g. to validate its target: that is not part of a re-initialisation)
+                rng_after_fresh = drv.stream_after_initialize(rng_before)
+                # ... and consume the same part of it: a re-initialised sampler continues exactly like a fresh one
+                if not (rng_after_reinit[2] == rng_after_fresh[2] and np.array_equal(rng_after_reinit[1], rng_after_fresh[1])):
+                    ctx.mismatch(sig("reinit_stream"), dict(case, sampler=name, pos=pos),
+                                 "reinitialize() does not consume the random numbers a fresh initialisation consumes (a re-initialised "
+                                 "sampler then continues differently from a fresh one on the same stream)")
+                    return
                 ok = set(st) == set(fr) and all(
                     (st[q] is None and fr[q] is None) or (st[q] is not None and fr[q] is not None and _eq(st[q], fr[q]))
                     for q in st)
